@@ -274,7 +274,7 @@ def parse_rect(o: Any) -> Rect:
         (x0, y0, x1, y1) = (float(v) for v in o)
         # A rectangle may be given by any two diagonally opposite corners
         return min(x0, x1), min(y0, y1), max(x0, x1), max(y0, y1)
-    except ValueError:
+    except (TypeError, ValueError):
         raise PDFValueError("Could not parse rectangle")
 
 
